@@ -23,9 +23,9 @@ import (
 // FaultPlan is one injected read fault.
 type FaultPlan struct {
 	Path string `json:"path"` // bucket path (relative to the workspace root)
-	Op   string `json:"op"`   // stat | get | read
+	Op   string `json:"op"`   // stat | get | read (every Read of an opened object fails)
 	Err  string `json:"err"`  // eio | eacces
-	Mode string `json:"mode"` // always | first (only the first matching call fails)
+	Mode string `json:"mode"` // always | first (only the first matching call / the first opened object fails)
 }
 
 func (p FaultPlan) String() string { return fmt.Sprintf("%s(%s)=%s/%s", p.Op, p.Path, p.Err, p.Mode) }
@@ -84,19 +84,22 @@ func (b *faultBucket) Get(ctx context.Context, path string) (storage.ReadObjectC
 	return obj, nil
 }
 
-// faultObject fails the first Read of an opened object (the open itself succeeded).
+// faultObject: an object whose open succeeded but whose content cannot be read: every Read fails (a reader that drops
+// the error of one Read, like bufio's Peek inside the compiler's lexer, sees it again on the next one).
 type faultObject struct {
 	storage.ReadObjectCloser
-	b    *faultBucket
-	done bool
+	b       *faultBucket
+	decided bool
+	failing bool
 }
 
 func (o *faultObject) Read(p []byte) (int, error) {
-	if !o.done {
-		o.done = true
-		if o.b.hit("read", o.b.plan.Path) {
-			return 0, o.b.plan.error("read")
-		}
+	if !o.decided {
+		o.decided = true
+		o.failing = o.b.hit("read", o.b.plan.Path)
+	}
+	if o.failing {
+		return 0, o.b.plan.error("read")
 	}
 	return o.ReadObjectCloser.Read(p)
 }
@@ -214,6 +217,7 @@ func (rn *runner) runFaultPhase() {
 			}
 			for _, p := range paths {
 				for _, op := range faultOps {
+					caseNo++
 					for ei, e := range faultErrs {
 						for mi, mode := range faultModes {
 							if quick && (mi > 0 || ei != caseNo%len(faultErrs)) {
@@ -232,6 +236,7 @@ func (rn *runner) runFaultPhase() {
 								cnt.add("fault_outcome_error_fault_not_reached", 1)
 							case fired:
 								cnt.add("fault_outcome_image_although_fault_hit", 1)
+								cnt.add("fault_outcome_image_although_fault_hit_"+role+"_"+op, 1)
 							default:
 								cnt.add("fault_outcome_image_fault_not_reached", 1)
 							}
@@ -242,7 +247,6 @@ func (rn *runner) runFaultPhase() {
 								r.Distinct("fault|" + specKey(s) + "|" + sel.String() + "|" + plan.String())
 							}
 						}
-						caseNo++
 					}
 				}
 			}
